@@ -128,13 +128,16 @@ Definition lf_strip_star (p : bytes) : bytes * bool :=
 Definition lf_strip_slash (p : bytes) : bytes :=
   match p with c :: tl => if c =? 47 then tl else p | [] => [] end.
 
-(* a value that starts with a double quote is a quoted-string: the text is what is between the quotes *)
+(* a value of at least two bytes that starts with a double quote is a quoted-string: the text
+   is what is between its first and its last byte *)
 Definition lf_unquote (v : bytes) : bytes :=
-  match v with c :: tl => if c =? 34 then removelast tl else v | [] => [] end.
+  match v with
+  | c :: tl => if (c =? 34) && negb (len tl =? 0) then removelast tl else v
+  | [] => []
+  end.
 
-(* a value that starts with a double quote has at least the closing quote behind it (the
-   hypothesis on attribute values under which the filter theorems hold: for a value that
-   consists of one double quote only, the code computes the length 1 - 2 in size_t) *)
+(* the code before the repair of F20e computed the length 1 - 2 in size_t for a value that
+   consists of one double quote; lf_val_ok excludes that value (used for the old code only) *)
 Definition lf_val_ok (v : bytes) : bool :=
   match v with
   | c :: tl => if c =? 34 then match tl with [] => false | _ :: _ => true end else true
@@ -403,10 +406,17 @@ Definition lf_select (guard : bool) (f : lf_filter) (r : lf_res) : lf_m bool :=
       | None => LfVal false
       | Some v =>
         let obj := v ++ [0] in
-        match lf_rd obj 0 with
+        (* if (attr->value->length >= 2 && attr->value->s[0] is a double quote) ; before the repair
+           (guard = false) only s[0] was tested *)
+        let quoted_r := if guard && (len v <? 2) then Some false
+                        else match lf_rd obj 0 with
+                             | None => None
+                             | Some c => Some (c =? 34)
+                             end in
+        match quoted_r with
         | None => LfOob
-        | Some c =>
-          let text := if c =? 34 then {| lf_obj := obj; lf_at := 1; lf_len := len v - 2 |}
+        | Some quoted =>
+          let text := if quoted then {| lf_obj := obj; lf_at := 1; lf_len := len v - 2 |}
                       else {| lf_obj := obj; lf_at := 0; lf_len := len v |} in
           if lf_len text <? 0 then LfOob     (* size_t underflow of a lone quote: wild reads *)
           else lf_match guard text (lf_pat f) (lf_prefix f) (lf_substring f)
